@@ -110,6 +110,9 @@ def handle (line : String) : String :=
       let cl := if o.dial == some o.ret then o.cl.filter (fun d => d.t != o.ret) else o.cl
       let cl := if c.fin == .reset then cl.filter (fun d => d.t < c.finT) else cl
       let up := if u.fin == .reset then o.up.filter (fun d => d.t < u.finT) else o.up
+      -- (2') same instant, client already gone (reset before the dial): the other direction's write
+      --      to the dead client fails and may force-close before the buffered prefix is forwarded
+      let up := if o.dial == some o.ret && c.fin == .reset then up.filter (fun d => d.t != o.ret) else up
       pure s!"dial={dial} armed={boolStr o.armedAtDial} up={delivStr up} upeof={upEof} cl={delivStr cl} cleof={clEof} ret={o.ret}"
     r.getD "bad-op"
   | _ => "bad-op"
